@@ -367,6 +367,33 @@ class Translator:
             return a
         return None
 
+    def guarded_delete_loop(self, st):
+        """`for a in ("x_", "y_"): if hasattr(self, a): delattr(self, a)` - the loop form of the guarded-delete idiom.
+        Returns the list of attribute names, or None."""
+        if not isinstance(st, ast.For) or st.orelse or not isinstance(st.target, ast.Name) or len(st.body) != 1:
+            return None
+        if not isinstance(st.iter, (ast.Tuple, ast.List)) or not st.iter.elts or not all(
+                isinstance(e, ast.Constant) and isinstance(e.value, str) for e in st.iter.elts):
+            return None
+        v, b = st.target.id, st.body[0]
+        if not isinstance(b, ast.If) or b.orelse or len(b.body) != 1:
+            return None
+        t = b.test
+        if not (isinstance(t, ast.Call) and isinstance(t.func, ast.Name) and t.func.id == "hasattr" and len(t.args) == 2
+                and isinstance(t.args[0], ast.Name) and t.args[0].id == "self"
+                and isinstance(t.args[1], ast.Name) and t.args[1].id == v):
+            return None
+        d = b.body[0]
+        if not (isinstance(d, ast.Expr) and isinstance(d.value, ast.Call) and isinstance(d.value.func, ast.Name)
+                and d.value.func.id == "delattr" and len(d.value.args) == 2
+                and isinstance(d.value.args[0], ast.Name) and d.value.args[0].id == "self"
+                and isinstance(d.value.args[1], ast.Name) and d.value.args[1].id == v):
+            return None
+        names = [e.value for e in st.iter.elts]
+        if any(a in self.params for a in names):
+            return None
+        return names
+
     def has_call(self, node):
         return node is not None and any(isinstance(n, ast.Call) for n in ast.walk(node))
 
@@ -856,6 +883,8 @@ class Translator:
             t = self.block(st.body, env_t, depth, ctx)
             e = self.block(st.orelse, env_e, depth, ctx)
             return seq(pre + [("ite", cond, t, e)])
+        if isinstance(st, ast.For) and self.guarded_delete_loop(st) is not None:
+            return seq([("atom", ("dattr", a, "if-present")) for a in self.guarded_delete_loop(st)])
         if isinstance(st, (ast.For, ast.AsyncFor)):
             pre = self.expr_effects(st.iter, env, depth, ctx)
             s = self.src_value(st.iter, env)
